@@ -230,3 +230,45 @@ Fixpoint s4_results_ok (init kinds : list Z) (ks : list Z) (res : list Z) : bool
   end.
 Definition s4_ok (init kinds : list Z) (obs : list Z) : bool :=
   s4_results_ok init kinds kinds (skipn (length init) obs).
+
+(* ---------------------------------------------------------------------------------------------- *)
+(* Scenario 5 (C11): a listing (ListBackends) against removals.  The listing copies the pool under the balancer's lock and then
+   visits every backend of its copy under that backend's lock; a removal is one section and takes the slot of the removed
+   backend by swapping the last one into it.  shared: the names in strategy order.  local: (snapshot, listing so far). *)
+Definition L_LIST : Z := 16.   (* ListBackends:RLock *)
+
+Fixpoint rm_swap (x : Z) (l : list Z) : list Z :=
+  match l with
+  | [] => []
+  | y :: t => if Z.eqb y x then (match rev t with [] => [] | z :: _ => z :: removelast t end) else y :: rm_swap x t
+  end.
+
+Definition lister : thr (list Z) (list Z * list Z) :=
+  mkThr (fun s l pc =>
+           if Z.eqb pc 0 then (match s with [] => (s, ([], []), None) | _ => (s, (s, []), Some 1) end)
+           else
+             let res := snd l ++ [nth (Z.to_nat (pc - 1)) (fst l) 0] in
+             if Z.eqb pc (zlen (fst l)) then (s, (fst l, res), None) else (s, (fst l, res), Some (pc + 1)))
+        (fun _ => L_LIST).
+
+Definition remover (x : Z) : thr (list Z) (list Z * list Z) :=
+  mkThr (fun s l pc => (rm_swap x s, l, None)) (fun _ => L_REMOVE).
+
+(* thread kinds: 30 = the listing, 40 + j = removal of backend j *)
+Definition s5_thread (k : Z) : thr (list Z) (list Z * list Z) := if Z.eqb k 30 then lister else remover (k - 40).
+
+Definition s5_run (n : Z) (kinds : list Z) (sched : list Z) : list Z * list (Z * Z) :=
+  let init := map Z.of_nat (seq 1 (Z.to_nat n)) in
+  let ths := map s5_thread kinds in
+  let ts0 := map (fun _ : Z => mkTS (([] : list Z), ([] : list Z)) (Some 0)) kinds in
+  let '(s, ts, trace) := run_sched ths init ts0 sched [] in
+  (flat_map (fun kt => if Z.eqb (fst kt) 30 then snd (ts_local (snd kt)) ++ [-1] else []) (combine kinds ts) ++ s, trace).
+
+(* the claim on the outcome: a listing names no backend twice, only backends of the pool, and every backend nobody removes *)
+Fixpoint nodupZ (l : list Z) : bool := match l with [] => true | x :: t => negb (memZ x t) && nodupZ t end.
+Fixpoint take_listing (obs : list Z) : list Z := match obs with [] => [] | x :: t => if Z.eqb x (-1) then [] else x :: take_listing t end.
+Definition s5_ok (n : Z) (kinds : list Z) (obs : list Z) : bool :=
+  let listing := take_listing obs in
+  nodupZ listing
+  && forallb (fun x => (1 <=? x) && (x <=? n)) listing
+  && forallb (fun j => memZ (40 + j) kinds || memZ j listing) (map Z.of_nat (seq 1 (Z.to_nat n))).
